@@ -1,55 +1,50 @@
-(* Proofs about the Lru machine, part 2: the invariant and its preservation by the building blocks of `step`. *)
+(* Proofs about the Lru machine, part 2: the structural invariant (Inv1) and its preservation by the building
+   blocks of `step`.  The counting invariant (Inv2) is in LruCount.v. *)
 From AV Require Import Base Lru LruLockFacts LruDict LruProofs.
 From AV Require Lock LockProofs.
 From Coq Require Import Sorting.Sorted ZifyBool.
 
-Record Inv (cf : cfg) (s : st) : Prop := {
+Definition is_bypass (p : cphase) : bool := match p with CBypass _ _ _ => true | _ => false end.
+
+Record Inv1 (cf : cfg) (s : st) : Prop := {
   I_lp : LP cf (locks s) (phase s) (nlock s) (lkey s);
-  I_nodup : NoDup (keys (dict s));
-  I_sorted : StronglySorted stamp_lt (dict s);
-  I_stamp : forall x, In x (dict s) -> ss x < clk s;
-  I_place : forall x l, In x (dict s) -> se x = EPlace l -> l < nlock s /\ lkey s l = sk x;
-  I_vdict : forall x v e, In x (dict s) -> se x = EVal v e -> In (sk x, v) (produced s);
+  I_nodup : forall g, NoDup (keys (dicts s g));
+  I_sorted : forall g, StronglySorted stamp_lt (dicts s g);
+  I_stamp : forall g x, In x (dicts s g) -> ss x < clk s;
+  I_place : forall g x l b, In x (dicts s g) -> se x = EPlace l b -> l < nlock s /\ lkey s l = sk x;
+  I_vdict : forall g x v e, In x (dicts s g) -> se x = EVal v e -> In (sk x, v) (produced s);
   I_vhit : forall c k v b, phase s c = CHitCk k v b -> In (k, v) (produced s);
-  I_t0 : forall c k l t0, phase s c = CLockWait k l t0 -> t0 <= now s;
-  I_fresh : forall c k l t0 v e dl, phase s c = CLockWait k l t0 ->
-              dget k (dict s) = Some (EVal v (Some e)) -> ttl cf = Some dl -> t0 + dl <= e;
-  I_bound : f_inflight s = false ->
-              (Z.of_nat (nval (dict s) + nrun cf (phase s)) <= currsize s)%Z /\
-              (forall m, maxsize cf = Some m -> (currsize s <= Z.of_nat m)%Z);
-  I_A : f_inflight s = false -> f_waited s = false -> forall c k l p b,
-          phase s c = CInWrapped k l p b -> dget k (dict s) = Some (EPlace l);
-  I_B : f_inflight s = false -> f_waited s = false -> forall c k l t0,
-          phase s c = CLockWait k l t0 ->
-          dget k (dict s) = Some (EPlace l) \/ exists v e, dget k (dict s) = Some (EVal v e)
+  I_t0 : forall c k l t0 g, phase s c = CLockWait k l t0 g -> t0 <= now s;
+  I_fresh : forall c k l t0 g v e dl, phase s c = CLockWait k l t0 g ->
+              dget k (dicts s g) = Some (EVal v (Some e)) -> ttl cf = Some dl -> t0 + dl <= e;
+  I_byp : forall c, is_bypass (phase s c) = true -> is_zero_max cf = true;
+  I_nobyp : forall c k l, lockref (phase s c) = Some (k, l) -> is_zero_max cf = false;
+  I_gen : f_phantom s = false -> forall c g, dictgen (phase s c) = Some g -> g = cur s;
+  I_le : forall c g, dictgen (phase s c) = Some g -> g <= cur s;
+  I_A : f_inflight s = false -> f_waited s = false -> forall c k l p b g,
+          phase s c = CInWrapped k l p b g -> dget k (dicts s g) = Some (EPlace l true);
+  I_B : f_inflight s = false -> f_waited s = false -> forall c k l t0 g,
+          phase s c = CLockWait k l t0 g ->
+          (exists b, dget k (dicts s g) = Some (EPlace l b)) \/ exists v e, dget k (dicts s g) = Some (EVal v e)
 }.
 
 Ltac sm :=
-  cbn [dict hits misses currsize locks nlock phase now clk lkey produced f_inflight f_waited
-       set_dict set_phase set_lock set_counts bump_clk add_produced set_flags new_lock fst snd] in *.
+  unfold dict, f_inflight, f_waited, f_uncounted, f_dead, f_phantom, f_bypass2 in *;
+  cbn [dicts cur has_dict hits misses currsize locks nlock phase now clk lkey produced fl
+       fl_inflight fl_waited fl_uncounted fl_dead fl_phantom fl_bypass2
+       fl_or_inflight fl_or_waited fl_or_uncounted fl_or_dead fl_or_phantom fl_or_bypass2
+       set_dict set_phase set_lock set_counts bump_clk add_produced set_fl set_has_dict new_lock fst snd] in *.
 
 Ltac updc c0 c Hp :=
   destruct (Nat.eq_dec c0 c) as [->|?]; [rewrite upd_same in Hp | rewrite upd_other in Hp by assumption].
 
-(* ---------- counting running callers ---------- *)
-Lemma nrun_upd cf ph c p' :
-  c < ncall cf ->
-  nrun cf (upd ph c p') + (if is_running (ph c) then 1 else 0) =
-  nrun cf ph + (if is_running p' then 1 else 0).
-Proof.
-  intros Hc. unfold nrun. apply (cnt_upd is_running ph c p').
-  - apply seq_NoDup.
-  - apply in_seq. lia.
-Qed.
+(* case split on a generation against the one that changes *)
+Ltac updg g0 g :=
+  destruct (Nat.eq_dec g0 g) as [->|?]; [rewrite ?upd_same in * | rewrite ?upd_other in * by assumption].
 
-Lemma nrun_idle cf ph : (forall c, c < ncall cf -> ph c = CIdle) -> nrun cf ph = 0.
+Lemma init_inv1 cf : Inv1 cf init.
 Proof.
-  intros H. unfold nrun. apply cnt_zero. intros x Hx. apply in_seq in Hx. rewrite H by lia. reflexivity.
-Qed.
-
-Lemma init_inv cf : Inv cf init.
-Proof.
-  constructor; cbn.
+  constructor; cbn; try discriminate; try tauto.
   - constructor; cbn.
     + intros l. apply LockProofs.inv_init.
     + intros l c He. exfalso. eapply engaged_init; eauto.
@@ -59,26 +54,62 @@ Proof.
     + congruence.
   - constructor.
   - constructor.
-  - tauto.
-  - tauto.
-  - tauto.
-  - discriminate.
-  - discriminate.
-  - discriminate.
-  - intros _. rewrite nrun_idle by reflexivity. cbn. split; [lia|]. intros m _. lia.
-  - discriminate.
-  - discriminate.
 Qed.
 
-(* ---------- leaf 1: the phase of c changes between phases that do not reference a lock ---------- *)
-Lemma inv_phase_noref cf s c p' :
-  Inv cf s -> c < ncall cf -> lockref (phase s c) = None -> lockref p' = None ->
-  (forall k v b, p' = CHitCk k v b -> In (k, v) (produced s)) ->
-  Inv cf (set_phase s c p').
+(* a state that differs only in components the invariant does not read (hits, misses, has_dict, fl_bypass2) or
+   reads monotonically *)
+Lemma inv1_same cf s s' :
+  Inv1 cf s ->
+  dicts s' = dicts s -> cur s' = cur s -> locks s' = locks s -> nlock s' = nlock s -> phase s' = phase s ->
+  now s' = now s -> clk s' = clk s -> lkey s' = lkey s -> produced s' = produced s ->
+  (f_inflight s' = false -> f_inflight s = false) -> (f_waited s' = false -> f_waited s = false) ->
+  (f_phantom s' = false -> f_phantom s = false) ->
+  Inv1 cf s'.
 Proof.
-  intros I Hc Hold Hnew Hhit.
-  assert (Hnr : is_running (phase s c) = false) by (destruct (phase s c); cbn in *; congruence).
-  assert (Hnr' : is_running p' = false) by (destruct p'; cbn in *; congruence).
+  intros I E1 E2 E3 E4 E5 E6 E7 E8 E9 F1 F2 F3. destruct I.
+  constructor; rewrite ?E1, ?E2, ?E3, ?E4, ?E5, ?E6, ?E7, ?E8, ?E9; auto.
+Qed.
+
+Ltac same_of I := apply (inv1_same _ _ _ I); sm; try reflexivity; try (intros H; exact H).
+
+Lemma inv1_counts cf s h m cs : Inv1 cf s -> Inv1 cf (set_counts s h m cs).
+Proof. intros I. same_of I. Qed.
+
+Lemma inv1_has_dict cf s : Inv1 cf s -> Inv1 cf (set_has_dict s).
+Proof. intros I. same_of I. Qed.
+
+Lemma inv1_fl cf s f :
+  Inv1 cf s ->
+  (fl_inflight f = false -> f_inflight s = false) -> (fl_waited f = false -> f_waited s = false) ->
+  (fl_phantom f = false -> f_phantom s = false) ->
+  Inv1 cf (set_fl s f).
+Proof. intros I H1 H2 H3. apply (inv1_same _ _ _ I); sm; auto. Qed.
+
+Lemma inv1_add_produced cf s k v : Inv1 cf s -> Inv1 cf (add_produced s k v).
+Proof.
+  intros I. destruct I. constructor; sm; try assumption.
+  - intros g x v0 e Hx He. right. eauto.
+  - intros c k0 v0 b Hp. right. eauto.
+Qed.
+
+Lemma inv1_tick cf s :
+  Inv1 cf s ->
+  Inv1 cf (mk (dicts s) (cur s) (has_dict s) (hits s) (misses s) (currsize s) (locks s) (nlock s) (phase s)
+              (S (now s)) (clk s) (lkey s) (produced s) (fl s)).
+Proof.
+  intros I. destruct I. constructor; sm; try assumption.
+  intros c k l t0 g Hp. specialize (I_t1 _ _ _ _ _ Hp). lia.
+Qed.
+
+(* ---------- leaf 1: the phase of c changes between phases that reference neither a lock nor a dict ---------- *)
+Lemma inv1_phase_noref cf s c p' :
+  Inv1 cf s -> c < ncall cf -> lockref (phase s c) = None -> lockref p' = None ->
+  (forall k v b, p' = CHitCk k v b -> In (k, v) (produced s)) ->
+  (is_bypass p' = true -> is_zero_max cf = true) ->
+  Inv1 cf (set_phase s c p').
+Proof.
+  intros I Hc Hold Hnew Hhit Hbyp.
+  assert (Hg' : dictgen p' = None) by (destruct p'; cbn in *; congruence).
   constructor; sm.
   - apply LP_phase; [apply (I_lp _ _ I)| | | | |].
     + intros l He. exfalso. eapply LP_idle_not_engaged; [apply (I_lp _ _ I)|exact Hold|exact He].
@@ -92,17 +123,19 @@ Proof.
   - apply (I_place _ _ I).
   - apply (I_vdict _ _ I).
   - intros c0 k v b Hp. updc c0 c Hp; [eauto|apply (I_vhit _ _ I _ _ _ _ Hp)].
-  - intros c0 k l t0 Hp. updc c0 c Hp; [subst; discriminate|apply (I_t0 _ _ I _ _ _ _ Hp)].
-  - intros c0 k l t0 v e dl Hp. updc c0 c Hp; [subst; discriminate|apply (I_fresh _ _ I _ _ _ _ _ _ _ Hp)].
-  - intros Hf. destruct (I_bound _ _ I Hf) as [H1 H2]. split; [|exact H2].
-    pose proof (nrun_upd cf (phase s) c p' Hc) as E. rewrite Hnr, Hnr' in E. lia.
-  - intros Hf Hw c0 k l p b Hp. updc c0 c Hp; [subst; discriminate|apply (I_A _ _ I Hf Hw _ _ _ _ _ Hp)].
-  - intros Hf Hw c0 k l t0 Hp. updc c0 c Hp; [subst; discriminate|apply (I_B _ _ I Hf Hw _ _ _ _ Hp)].
+  - intros c0 k l t0 g Hp. updc c0 c Hp; [subst; discriminate|apply (I_t0 _ _ I _ _ _ _ _ Hp)].
+  - intros c0 k l t0 g v e dl Hp. updc c0 c Hp; [subst; discriminate|apply (I_fresh _ _ I _ _ _ _ _ _ _ _ Hp)].
+  - intros c0 Hp. updc c0 c Hp; [auto|apply (I_byp _ _ I c0 Hp)].
+  - intros c0 k l Hp. updc c0 c Hp; [congruence|apply (I_nobyp _ _ I c0 k l Hp)].
+  - intros Hf c0 g Hp. updc c0 c Hp; [congruence|apply (I_gen _ _ I Hf c0 g Hp)].
+  - intros c0 g Hp. updc c0 c Hp; [congruence|apply (I_le _ _ I c0 g Hp)].
+  - intros Hf Hw c0 k l p b g Hp. updc c0 c Hp; [subst; discriminate|apply (I_A _ _ I Hf Hw _ _ _ _ _ _ Hp)].
+  - intros Hf Hw c0 k l t0 g Hp. updc c0 c Hp; [subst; discriminate|apply (I_B _ _ I Hf Hw _ _ _ _ _ Hp)].
 Qed.
 
 (* ---------- leaf 2: pend / canc of a running caller change ---------- *)
-Lemma inv_phase_running cf s c k l p b p2 b2 :
-  Inv cf s -> phase s c = CInWrapped k l p b -> Inv cf (set_phase s c (CInWrapped k l p2 b2)).
+Lemma inv1_phase_running cf s c k l p b g p2 b2 :
+  Inv1 cf s -> phase s c = CInWrapped k l p b g -> Inv1 cf (set_phase s c (CInWrapped k l p2 b2 g)).
 Proof.
   intros I Hp0.
   assert (Hc : c < ncall cf) by (apply (L_ncall _ _ _ _ _ (I_lp _ _ I)); congruence).
@@ -110,7 +143,7 @@ Proof.
   - apply LP_phase; [apply (I_lp _ _ I)| | | | |].
     + intros l0 He. destruct (L_eng _ _ _ _ _ (I_lp _ _ I) l0 c He) as [k0 Hk]. rewrite Hp0 in Hk. cbn in *. eauto.
     + discriminate.
-    + intros k0 l0 p0 b0 [= -> -> _ _]. apply (L_run _ _ _ _ _ (I_lp _ _ I) _ _ _ _ _ Hp0).
+    + intros k0 l0 p0 b0 g0 [= -> -> _ _ _]. apply (L_run _ _ _ _ _ (I_lp _ _ I) _ _ _ _ _ _ Hp0).
     + intros k0 l0 [= <- <-]. apply (L_ref _ _ _ _ _ (I_lp _ _ I) c). now rewrite Hp0.
     + auto.
   - apply (I_nodup _ _ I).
@@ -119,43 +152,38 @@ Proof.
   - apply (I_place _ _ I).
   - apply (I_vdict _ _ I).
   - intros c0 k0 v b0 Hp. updc c0 c Hp; [discriminate|apply (I_vhit _ _ I _ _ _ _ Hp)].
-  - intros c0 k0 l0 t0 Hp. updc c0 c Hp; [discriminate|apply (I_t0 _ _ I _ _ _ _ Hp)].
-  - intros c0 k0 l0 t0 v e dl Hp. updc c0 c Hp; [discriminate|apply (I_fresh _ _ I _ _ _ _ _ _ _ Hp)].
-  - intros Hf. destruct (I_bound _ _ I Hf) as [H1 H2]. split; [|exact H2].
-    pose proof (nrun_upd cf (phase s) c (CInWrapped k l p2 b2) Hc) as E. rewrite Hp0 in E. cbn in E. lia.
-  - intros Hf Hw c0 k0 l0 p0 b0 Hp. updc c0 c Hp.
-    + injection Hp as <- <- _ _. apply (I_A _ _ I Hf Hw _ _ _ _ _ Hp0).
-    + apply (I_A _ _ I Hf Hw _ _ _ _ _ Hp).
-  - intros Hf Hw c0 k0 l0 t0 Hp. updc c0 c Hp; [discriminate|apply (I_B _ _ I Hf Hw _ _ _ _ Hp)].
-Qed.
-
-(* ---------- leaf 3: components the invariant does not read, or reads monotonically ---------- *)
-Lemma inv_counts cf s h m : Inv cf s -> Inv cf (set_counts s h m (currsize s)).
-Proof. intros I. destruct I. constructor; sm; assumption. Qed.
-
-Lemma inv_add_produced cf s k v : Inv cf s -> Inv cf (add_produced s k v).
-Proof.
-  intros I. destruct I. constructor; sm; try assumption.
-  - intros x v0 e Hx He. right. eauto.
-  - intros c k0 v0 b Hp. right. eauto.
-Qed.
-
-Lemma inv_tick cf s :
-  Inv cf s ->
-  Inv cf (mk (dict s) (hits s) (misses s) (currsize s) (locks s) (nlock s) (phase s) (S (now s)) (clk s) (lkey s)
-             (produced s) (f_inflight s) (f_waited s)).
-Proof.
-  intros I. destruct I. constructor; sm; try assumption.
-  intros c k l t0 Hp. specialize (I_t1 _ _ _ _ Hp). lia.
+  - intros c0 k0 l0 t0 g0 Hp. updc c0 c Hp; [discriminate|apply (I_t0 _ _ I _ _ _ _ _ Hp)].
+  - intros c0 k0 l0 t0 g0 v e dl Hp. updc c0 c Hp; [discriminate|apply (I_fresh _ _ I _ _ _ _ _ _ _ _ Hp)].
+  - intros c0 Hp. updc c0 c Hp; [discriminate|apply (I_byp _ _ I c0 Hp)].
+  - intros c0 k0 l0 Hp. updc c0 c Hp; [|apply (I_nobyp _ _ I c0 k0 l0 Hp)].
+    apply (I_nobyp _ _ I c k l). now rewrite Hp0.
+  - intros Hf c0 g0 Hp. updc c0 c Hp; [|apply (I_gen _ _ I Hf c0 g0 Hp)].
+    apply (I_gen _ _ I Hf c). rewrite Hp0. exact Hp.
+  - intros c0 g0 Hp. updc c0 c Hp; [|apply (I_le _ _ I c0 g0 Hp)].
+    apply (I_le _ _ I c). rewrite Hp0. exact Hp.
+  - intros Hf Hw c0 k0 l0 p0 b0 g0 Hp. updc c0 c Hp.
+    + injection Hp as <- <- _ _ <-. apply (I_A _ _ I Hf Hw _ _ _ _ _ _ Hp0).
+    + apply (I_A _ _ I Hf Hw _ _ _ _ _ _ Hp).
+  - intros Hf Hw c0 k0 l0 t0 g0 Hp. updc c0 c Hp; [discriminate|apply (I_B _ _ I Hf Hw _ _ _ _ _ Hp)].
 Qed.
 
 (* ---------- helper facts ---------- *)
-Lemma waited_false cf s k c l t0 :
-  waited cf s k = false -> c < ncall cf -> phase s c = CLockWait k l t0 -> False.
+Lemma waited_false cf s k g c l t0 :
+  waited cf s k g = false -> c < ncall cf -> phase s c = CLockWait k l t0 g -> False.
 Proof.
   unfold waited. intros H Hc Hp.
-  assert (E : existsb (fun c0 => waits_for k (phase s c0)) (seq 0 (ncall cf)) = true).
-  { apply existsb_exists. exists c. split; [apply in_seq; lia|]. rewrite Hp. cbn. apply Nat.eqb_refl. }
+  assert (E : existsb (fun c0 => waits_for k g (phase s c0)) (seq 0 (ncall cf)) = true).
+  { apply existsb_exists. exists c. split; [apply in_seq; lia|]. rewrite Hp. cbn. now rewrite !Nat.eqb_refl. }
+  congruence.
+Qed.
+
+Lemma referenced_false cf s l c k :
+  referenced cf s l = false -> c < ncall cf -> lockref (phase s c) = Some (k, l) -> False.
+Proof.
+  unfold referenced. intros H Hc Hp.
+  assert (E : existsb (fun c0 => refs l (phase s c0)) (seq 0 (ncall cf)) = true).
+  { apply existsb_exists. exists c. split; [apply in_seq; lia|].
+    destruct (phase s c); cbn in *; try discriminate; injection Hp as _ ->; apply Nat.eqb_refl. }
   congruence.
 Qed.
 
@@ -174,137 +202,185 @@ Proof.
   apply sorted_app_last; [exact Hs|]. intros y Hy. cbn. now apply Hb.
 Qed.
 
-(* ---------- leaf 4: a placeholder for a key that is not in the dict ---------- *)
-Lemma inv_install cf s k :
-  Inv cf s -> dfind k (dict s) = None ->
-  Inv cf (mk (dict s ++ [mkslot k (EPlace (nlock s)) (clk s)]) (hits s) (misses s) (currsize s)
-             (upd (locks s) (nlock s) (Lock.init (negb (ackpt cf)))) (S (nlock s)) (phase s) (now s)
-             (S (clk s)) (upd (lkey s) (nlock s) k) (produced s) (f_inflight s) (f_waited s)).
+(* the dict-local part of the invariant for one generation *)
+Record DI (s : st) (d : list slot) : Prop := {
+  D_nodup : NoDup (keys d);
+  D_sorted : StronglySorted stamp_lt d;
+  D_stamp : forall x, In x d -> ss x < clk s;
+  D_place : forall x l b, In x d -> se x = EPlace l b -> l < nlock s /\ lkey s l = sk x;
+  D_vdict : forall x v e, In x d -> se x = EVal v e -> In (sk x, v) (produced s)
+}.
+
+Lemma DI_of cf s g : Inv1 cf s -> DI s (dicts s g).
 Proof.
-  intros I Hnone. pose proof (dget_none_find _ _ Hnone) as Hg. constructor; sm.
-  - apply LP_newlock, (I_lp _ _ I).
-  - apply nodup_app_one; [apply (I_nodup _ _ I)|now apply dfind_none_keys].
-  - apply sorted_app_last; [apply (I_sorted _ _ I)|]. intros y Hy. cbn. apply (I_stamp _ _ I), Hy.
-  - intros x Hx. apply in_app_or in Hx. destruct Hx as [Hx|[<-|[]]]; [|cbn; lia].
-    pose proof (I_stamp _ _ I x Hx). lia.
-  - intros x l Hx He. apply in_app_or in Hx. destruct Hx as [Hx|[<-|[]]].
-    + destruct (I_place _ _ I x l Hx He) as [H1 H2]. split; [lia|]. rewrite upd_other; [exact H2|lia].
-    + cbn in *. injection He as <-. split; [lia|apply upd_same].
-  - intros x v e Hx He. apply in_app_or in Hx. destruct Hx as [Hx|[<-|[]]]; [|discriminate].
-    apply (I_vdict _ _ I x v e Hx He).
-  - apply (I_vhit _ _ I).
-  - apply (I_t0 _ _ I).
-  - intros c k0 l t0 v e dl Hp Hd. rewrite dget_app in Hd.
-    destruct (dget k0 (dict s)) eqn:E; [injection Hd as ->; apply (I_fresh _ _ I _ _ _ _ _ _ _ Hp E)|].
-    destruct (Nat.eqb k k0); discriminate.
-  - intros Hf. destruct (I_bound _ _ I Hf) as [H1 H2]. split; [|exact H2].
-    rewrite nval_app. unfold is_val. cbn. lia.
-  - intros Hf Hw c k0 l p b Hp. rewrite dget_app, (I_A _ _ I Hf Hw _ _ _ _ _ Hp). reflexivity.
-  - intros Hf Hw c k0 l t0 Hp. rewrite dget_app.
-    destruct (I_B _ _ I Hf Hw _ _ _ _ Hp) as [H|(v & e & H)]; rewrite H; eauto.
+  intros I. constructor; [apply (I_nodup _ _ I)|apply (I_sorted _ _ I)|apply (I_stamp _ _ I g)|
+                          apply (I_place _ _ I g)|apply (I_vdict _ _ I g)].
 Qed.
 
-(* ---------- leaf 5: an expired value is replaced by a placeholder ---------- *)
-Lemma inv_expire cf s k x v exp :
-  Inv cf s -> dfind k (dict s) = Some x -> se x = EVal v exp ->
-  Inv cf (mk (dset_in k (EPlace (nlock s)) (dict s)) (hits s) (misses s) (currsize s - 1)%Z
-             (upd (locks s) (nlock s) (Lock.init (negb (ackpt cf)))) (S (nlock s)) (phase s) (now s)
-             (clk s) (upd (lkey s) (nlock s) k) (produced s) (f_inflight s)
-             (orb (f_waited s) (waited cf s k))).
+(* ---------- leaf 4: a placeholder for a key that is not in the current dict ---------- *)
+Lemma inv1_install cf s k :
+  Inv1 cf s -> dfind k (dict s) = None ->
+  Inv1 cf (mk (upd (dicts s) (cur s) (dict s ++ [mkslot k (EPlace (nlock s) false) (clk s)])) (cur s) (has_dict s)
+              (hits s) (misses s) (currsize s)
+              (upd (locks s) (nlock s) (Lock.init (negb (ackpt cf)))) (S (nlock s)) (phase s) (now s)
+              (S (clk s)) (upd (lkey s) (nlock s) k) (produced s) (fl s)).
 Proof.
-  intros I Hfind Hse. pose proof (dget_find _ _ _ Hfind) as Hg. rewrite Hse in Hg.
+  intros I Hnone. pose proof (dget_none_find _ _ Hnone) as Hg. unfold dict in *. constructor; sm.
+  - apply LP_newlock, (I_lp _ _ I).
+  - intros g. updg g (cur s); [|apply (I_nodup _ _ I)].
+    apply nodup_app_one; [apply (I_nodup _ _ I)|now apply dfind_none_keys].
+  - intros g. updg g (cur s); [|apply (I_sorted _ _ I)].
+    apply sorted_app_last; [apply (I_sorted _ _ I)|]. intros y Hy. cbn. apply (I_stamp _ _ I _ _ Hy).
+  - intros g x Hx. updg g (cur s); [|pose proof (I_stamp _ _ I _ _ Hx); lia].
+    apply in_app_or in Hx. destruct Hx as [Hx|[<-|[]]]; [|cbn; lia].
+    pose proof (I_stamp _ _ I _ x Hx). lia.
+  - intros g x l b Hx He.
+    assert (Hold : forall g0, In x (dicts s g0) -> l < S (nlock s) /\ upd (lkey s) (nlock s) k l = sk x).
+    { intros g0 H0. destruct (I_place _ _ I g0 x l b H0 He) as [H1 H2]. split; [lia|]. rewrite upd_other; [exact H2|lia]. }
+    updg g (cur s); [|eauto]. apply in_app_or in Hx. destruct Hx as [Hx|[<-|[]]]; [eauto|].
+    cbn in *. injection He as <- _. split; [lia|apply upd_same].
+  - intros g x v e Hx He. updg g (cur s); [|apply (I_vdict _ _ I _ x v e Hx He)].
+    apply in_app_or in Hx. destruct Hx as [Hx|[<-|[]]]; [|discriminate].
+    apply (I_vdict _ _ I _ x v e Hx He).
+  - apply (I_vhit _ _ I).
+  - apply (I_t0 _ _ I).
+  - intros c k0 l t0 g v e dl Hp Hd. updg g (cur s); [|apply (I_fresh _ _ I _ _ _ _ _ _ _ _ Hp Hd)].
+    rewrite dget_app in Hd.
+    destruct (dget k0 (dicts s (cur s))) eqn:E; [injection Hd as ->; apply (I_fresh _ _ I _ _ _ _ _ _ _ _ Hp E)|].
+    destruct (Nat.eqb k k0); discriminate.
+  - apply (I_byp _ _ I).
+  - apply (I_nobyp _ _ I).
+  - apply (I_gen _ _ I).
+  - apply (I_le _ _ I).
+  - intros Hf Hw c k0 l p b g Hp. pose proof (I_A _ _ I Hf Hw _ _ _ _ _ _ Hp) as HA.
+    updg g (cur s); [|exact HA]. rewrite dget_app, HA. reflexivity.
+  - intros Hf Hw c k0 l t0 g Hp. pose proof (I_B _ _ I Hf Hw _ _ _ _ _ Hp) as HB.
+    updg g (cur s); [|exact HB]. rewrite dget_app.
+    destruct HB as [[b H]|(v & e & H)]; rewrite H; eauto.
+Qed.
+
+(* ---------- leaf 5: an expired value of the current dict is replaced by a placeholder ---------- *)
+Lemma inv1_expire cf s k x v exp :
+  Inv1 cf s -> dfind k (dict s) = Some x -> se x = EVal v exp ->
+  Inv1 cf (mk (upd (dicts s) (cur s) (dset_in k (EPlace (nlock s) false) (dict s))) (cur s) (has_dict s)
+              (hits s) (misses s) (currsize s - 1)%Z
+              (upd (locks s) (nlock s) (Lock.init (negb (ackpt cf)))) (S (nlock s)) (phase s) (now s)
+              (clk s) (upd (lkey s) (nlock s) k) (produced s)
+              (fl_or_waited (fl s) (waited cf s k (cur s)))).
+Proof.
+  intros I Hfind Hse. unfold dict in *. pose proof (dget_find _ _ _ Hfind) as Hg. rewrite Hse in Hg.
   constructor; sm.
   - apply LP_newlock, (I_lp _ _ I).
-  - rewrite keys_dset_in. apply (I_nodup _ _ I).
-  - apply sorted_dset_in, (I_sorted _ _ I).
-  - intros y Hy. apply in_dset_in in Hy. destruct Hy as [Hy|(z & Hz & _ & ->)]; [apply (I_stamp _ _ I), Hy|].
-    cbn. apply (I_stamp _ _ I), Hz.
-  - intros y l Hy He. apply in_dset_in in Hy. destruct Hy as [Hy|(z & Hz & Hk & ->)].
-    + destruct (I_place _ _ I y l Hy He) as [H1 H2]. split; [lia|]. rewrite upd_other; [exact H2|lia].
-    + cbn in *. injection He as <-. split; [lia|apply upd_same].
-  - intros y v0 e Hy He. apply in_dset_in in Hy. destruct Hy as [Hy|(z & Hz & Hk & ->)]; [|discriminate].
-    apply (I_vdict _ _ I y v0 e Hy He).
+  - intros g. updg g (cur s); [|apply (I_nodup _ _ I)]. rewrite keys_dset_in. apply (I_nodup _ _ I).
+  - intros g. updg g (cur s); [|apply (I_sorted _ _ I)]. apply sorted_dset_in, (I_sorted _ _ I).
+  - intros g y Hy. updg g (cur s); [|apply (I_stamp _ _ I _ _ Hy)].
+    apply in_dset_in in Hy. destruct Hy as [Hy|(z & Hz & _ & ->)]; [apply (I_stamp _ _ I _ _ Hy)|].
+    cbn. apply (I_stamp _ _ I _ _ Hz).
+  - intros g y l b Hy He.
+    assert (Hold : forall g0, In y (dicts s g0) -> l < S (nlock s) /\ upd (lkey s) (nlock s) k l = sk y).
+    { intros g0 H0. destruct (I_place _ _ I g0 y l b H0 He) as [H1 H2]. split; [lia|]. rewrite upd_other; [exact H2|lia]. }
+    updg g (cur s); [|eauto]. apply in_dset_in in Hy. destruct Hy as [Hy|(z & Hz & Hk & ->)]; [eauto|].
+    cbn in *. injection He as <- _. split; [lia|apply upd_same].
+  - intros g y v0 e Hy He. updg g (cur s); [|apply (I_vdict _ _ I _ y v0 e Hy He)].
+    apply in_dset_in in Hy. destruct Hy as [Hy|(z & Hz & Hk & ->)]; [|discriminate].
+    apply (I_vdict _ _ I _ y v0 e Hy He).
   - apply (I_vhit _ _ I).
   - apply (I_t0 _ _ I).
-  - intros c k0 l t0 v0 e dl Hp Hd. rewrite dget_dset_in in Hd.
-    destruct (Nat.eqb k0 k); [rewrite Hg in Hd; discriminate|]. apply (I_fresh _ _ I _ _ _ _ _ _ _ Hp Hd).
-  - intros Hf. destruct (I_bound _ _ I Hf) as [H1 H2]. split.
-    + assert (Hv : is_val x = true) by (unfold is_val; now rewrite Hse).
-      pose proof (nval_dset_in_place k (nlock s) (dict s) x Hfind Hv). lia.
-    + intros m Hm. specialize (H2 m Hm). lia.
-  - intros Hf Hw c k0 l p b Hp. apply orb_false_elim in Hw. destruct Hw as [Hw1 Hw2].
-    pose proof (I_A _ _ I Hf Hw1 _ _ _ _ _ Hp) as HA. rewrite dget_dset_in.
-    destruct (Nat.eqb_spec k0 k) as [->|N]; [congruence|exact HA].
-  - intros Hf Hw c k0 l t0 Hp. apply orb_false_elim in Hw. destruct Hw as [Hw1 Hw2].
-    rewrite dget_dset_in. destruct (Nat.eqb_spec k0 k) as [->|N].
-    + exfalso. eapply waited_false; [exact Hw2| |exact Hp].
-      apply (L_ncall _ _ _ _ _ (I_lp _ _ I)). congruence.
-    + apply (I_B _ _ I Hf Hw1 _ _ _ _ Hp).
+  - intros c k0 l t0 g v0 e dl Hp Hd. updg g (cur s); [|apply (I_fresh _ _ I _ _ _ _ _ _ _ _ Hp Hd)].
+    rewrite dget_dset_in in Hd.
+    destruct (Nat.eqb k0 k); [rewrite Hg in Hd; discriminate|]. apply (I_fresh _ _ I _ _ _ _ _ _ _ _ Hp Hd).
+  - apply (I_byp _ _ I).
+  - apply (I_nobyp _ _ I).
+  - apply (I_gen _ _ I).
+  - apply (I_le _ _ I).
+  - intros Hf Hw c k0 l p b g Hp. apply orb_false_elim in Hw. destruct Hw as [Hw1 Hw2].
+    pose proof (I_A _ _ I Hf Hw1 _ _ _ _ _ _ Hp) as HA. updg g (cur s); [|exact HA].
+    rewrite dget_dset_in. destruct (Nat.eqb_spec k0 k) as [->|N]; [congruence|exact HA].
+  - intros Hf Hw c k0 l t0 g Hp. apply orb_false_elim in Hw. destruct Hw as [Hw1 Hw2].
+    pose proof (I_B _ _ I Hf Hw1 _ _ _ _ _ Hp) as HB. updg g (cur s); [|exact HB].
+    rewrite dget_dset_in. destruct (Nat.eqb_spec k0 k) as [->|N]; [|exact HB].
+    exfalso. eapply waited_false; [exact Hw2| |exact Hp].
+    apply (L_ncall _ _ _ _ _ (I_lp _ _ I)). congruence.
 Qed.
 
-(* ---------- leaf 6: move_to_end ---------- *)
-Lemma inv_touch cf s k h m :
-  Inv cf s ->
-  Inv cf (mk (dmove k (clk s) (dict s)) h m (currsize s) (locks s) (nlock s) (phase s) (now s) (S (clk s))
-             (lkey s) (produced s) (f_inflight s) (f_waited s)).
+(* ---------- leaf 6: move_to_end in dict g ---------- *)
+Lemma inv1_touch cf s g k h m :
+  Inv1 cf s ->
+  Inv1 cf (mk (upd (dicts s) g (dmove k (clk s) (dicts s g))) (cur s) (has_dict s) h m (currsize s) (locks s)
+              (nlock s) (phase s) (now s) (S (clk s)) (lkey s) (produced s) (fl s)).
 Proof.
   intros I. constructor; sm.
   - apply (I_lp _ _ I).
-  - apply nodup_dmove, (I_nodup _ _ I).
-  - apply sorted_dmove; [apply (I_sorted _ _ I)|apply (I_stamp _ _ I)].
-  - intros y Hy. apply in_dmove in Hy. destruct Hy as [Hy|(z & Hz & _ & ->)]; [|cbn; lia].
-    pose proof (I_stamp _ _ I y Hy). lia.
-  - intros y l Hy He. apply in_dmove in Hy. destruct Hy as [Hy|(z & Hz & Hk & ->)].
-    + apply (I_place _ _ I y l Hy He).
-    + cbn in *. rewrite <- Hk. apply (I_place _ _ I z l Hz He).
-  - intros y v e Hy He. apply in_dmove in Hy. destruct Hy as [Hy|(z & Hz & Hk & ->)].
-    + apply (I_vdict _ _ I y v e Hy He).
-    + cbn in *. rewrite <- Hk. apply (I_vdict _ _ I z v e Hz He).
+  - intros g0. updg g0 g; [|apply (I_nodup _ _ I)]. apply nodup_dmove, (I_nodup _ _ I).
+  - intros g0. updg g0 g; [|apply (I_sorted _ _ I)].
+    apply sorted_dmove; [apply (I_sorted _ _ I)|apply (I_stamp _ _ I g)].
+  - intros g0 y Hy. updg g0 g; [|pose proof (I_stamp _ _ I _ _ Hy); lia].
+    apply in_dmove in Hy. destruct Hy as [Hy|(z & Hz & _ & ->)]; [|cbn; lia].
+    pose proof (I_stamp _ _ I _ y Hy). lia.
+  - intros g0 y l b Hy He. updg g0 g; [|apply (I_place _ _ I _ y l b Hy He)].
+    apply in_dmove in Hy. destruct Hy as [Hy|(z & Hz & Hk & ->)].
+    + apply (I_place _ _ I _ y l b Hy He).
+    + cbn in *. rewrite <- Hk. apply (I_place _ _ I _ z l b Hz He).
+  - intros g0 y v e Hy He. updg g0 g; [|apply (I_vdict _ _ I _ y v e Hy He)].
+    apply in_dmove in Hy. destruct Hy as [Hy|(z & Hz & Hk & ->)].
+    + apply (I_vdict _ _ I _ y v e Hy He).
+    + cbn in *. rewrite <- Hk. apply (I_vdict _ _ I _ z v e Hz He).
   - apply (I_vhit _ _ I).
   - apply (I_t0 _ _ I).
-  - intros c k0 l t0 v e dl Hp Hd. rewrite dget_dmove in Hd. apply (I_fresh _ _ I _ _ _ _ _ _ _ Hp Hd).
-  - intros Hf. destruct (I_bound _ _ I Hf) as [H1 H2]. split; [|exact H2].
-    pose proof (nval_dmove k (clk s) (dict s)). lia.
-  - intros Hf Hw c k0 l p b Hp. rewrite dget_dmove. apply (I_A _ _ I Hf Hw _ _ _ _ _ Hp).
-  - intros Hf Hw c k0 l t0 Hp. rewrite dget_dmove. apply (I_B _ _ I Hf Hw _ _ _ _ Hp).
+  - intros c k0 l t0 g0 v e dl Hp Hd. updg g0 g; [rewrite dget_dmove in Hd|];
+      apply (I_fresh _ _ I _ _ _ _ _ _ _ _ Hp Hd).
+  - apply (I_byp _ _ I).
+  - apply (I_nobyp _ _ I).
+  - apply (I_gen _ _ I).
+  - apply (I_le _ _ I).
+  - intros Hf Hw c k0 l p b g0 Hp. updg g0 g; [rewrite dget_dmove|]; apply (I_A _ _ I Hf Hw _ _ _ _ _ _ Hp).
+  - intros Hf Hw c k0 l t0 g0 Hp. updg g0 g; [rewrite dget_dmove|]; apply (I_B _ _ I Hf Hw _ _ _ _ _ Hp).
 Qed.
 
 (* ---------- leaf 7: a lock operation by a caller suspended in acquire() that stays there ---------- *)
-Lemma inv_lock_only cf s c k l t0 o :
-  Inv cf s -> phase s c = CLockWait k l t0 -> op_tid o = c ->
+Lemma LP_lock_only cf s c k l t0 g o :
+  Inv1 cf s -> phase s c = CLockWait k l t0 g -> op_tid o = c ->
   engaged (fst (Lock.step (locks s l) o)) c ->
-  Inv cf (set_lock s l (fst (Lock.step (locks s l) o))).
+  LP cf (upd (locks s) l (fst (Lock.step (locks s l) o))) (phase s) (nlock s) (lkey s).
 Proof.
   intros I Hp Ho He.
-  assert (HL : LP cf (upd (locks s) l (fst (Lock.step (locks s l) o))) (phase s) (nlock s) (lkey s)).
-  { apply LP_ext with (ph := upd (phase s) c (phase s c)).
-    - intros c0. destruct (Nat.eq_dec c0 c) as [->|N]; [now rewrite upd_same|now rewrite upd_other].
-    - apply LP_update; [apply (I_lp _ _ I)| | | | | | | |].
-      + apply LockProofs.step_inv, (L_inv _ _ _ _ _ (I_lp _ _ I)).
-      + intros c' N. apply (LP_step_other _ _ _ _ _ l o (I_lp _ _ I)). congruence.
-      + rewrite Hp. cbn. intros k0 l0 [= _ <-]. reflexivity.
-      + intros _. rewrite Hp. cbn. eauto.
-      + rewrite Hp. intros k0 l0 t1 [= _ <- _]. auto.
-      + rewrite Hp. discriminate.
-      + apply (L_ref _ _ _ _ _ (I_lp _ _ I) c).
-      + intros _. apply (L_ncall _ _ _ _ _ (I_lp _ _ I)). congruence. }
+  apply LP_ext with (ph := upd (phase s) c (phase s c)).
+  - intros c0. destruct (Nat.eq_dec c0 c) as [->|N]; [now rewrite upd_same|now rewrite upd_other].
+  - apply LP_update; [apply (I_lp _ _ I)| | | | | | | |].
+    + apply LockProofs.step_inv, (L_inv _ _ _ _ _ (I_lp _ _ I)).
+    + intros c' N. apply (LP_step_other _ _ _ _ _ l o (I_lp _ _ I)). congruence.
+    + rewrite Hp. cbn. intros k0 l0 [= _ <-]. reflexivity.
+    + intros _. rewrite Hp. cbn. eauto.
+    + rewrite Hp. intros k0 l0 t1 g1 [= _ <- _ _]. auto.
+    + rewrite Hp. discriminate.
+    + apply (L_ref _ _ _ _ _ (I_lp _ _ I) c).
+    + intros _. apply (L_ncall _ _ _ _ _ (I_lp _ _ I)). congruence.
+Qed.
+
+Lemma inv1_lock_only cf s c k l t0 g o :
+  Inv1 cf s -> phase s c = CLockWait k l t0 g -> op_tid o = c ->
+  engaged (fst (Lock.step (locks s l) o)) c ->
+  Inv1 cf (set_lock s l (fst (Lock.step (locks s l) o))).
+Proof.
+  intros I Hp Ho He. pose proof (LP_lock_only cf s c k l t0 g o I Hp Ho He) as HL.
   destruct I. constructor; sm; assumption.
 Qed.
 
 (* ---------- leaf 8: an idle caller enters `async with lock` of the entry it has just looked up ---------- *)
-Lemma inv_mark cf s c k l :
-  Inv cf s -> phase s c = CIdle -> c < ncall cf -> dget k (dict s) = Some (EPlace l) ->
-  l < nlock s -> lkey s l = k ->
+Lemma inv1_mark cf s c k l b0 :
+  Inv1 cf s -> phase s c = CIdle -> c < ncall cf -> dget k (dict s) = Some (EPlace l b0) ->
+  l < nlock s -> lkey s l = k -> is_zero_max cf = false ->
   engaged (fst (Lock.step (locks s l) (Lock.AcqBegin c))) c ->
-  Inv cf (set_lock (set_phase s c (CLockWait k l (now s))) l (fst (Lock.step (locks s l) (Lock.AcqBegin c)))).
+  Inv1 cf (set_lock (set_phase s c (CLockWait k l (now s) (cur s))) l
+                    (fst (Lock.step (locks s l) (Lock.AcqBegin c)))).
 Proof.
-  intros I Hp Hc Hd Hl Hk He. constructor; sm.
+  intros I Hp Hc Hd Hl Hk Hz He. unfold dict in *. constructor; sm.
   - apply LP_update; [apply (I_lp _ _ I)| | | | | | | |].
     + apply LockProofs.step_inv, (L_inv _ _ _ _ _ (I_lp _ _ I)).
     + intros c' N. apply (LP_step_other _ _ _ _ _ l (Lock.AcqBegin c) (I_lp _ _ I)). exact N.
     + rewrite Hp. discriminate.
     + intros _. cbn. eauto.
-    + intros k0 l0 t1 [= _ <- _]. auto.
+    + intros k0 l0 t1 g1 [= _ <- _ _]. auto.
     + discriminate.
     + cbn. intros k0 l0 [= <- <-]. auto.
     + auto.
@@ -314,19 +390,21 @@ Proof.
   - apply (I_place _ _ I).
   - apply (I_vdict _ _ I).
   - intros c0 k0 v b H. updc c0 c H; [discriminate|apply (I_vhit _ _ I _ _ _ _ H)].
-  - intros c0 k0 l0 t1 H. updc c0 c H; [injection H as _ _ <-; lia|apply (I_t0 _ _ I _ _ _ _ H)].
-  - intros c0 k0 l0 t1 v e dl H Hg. updc c0 c H; [injection H as <- _ _; congruence|].
-    apply (I_fresh _ _ I _ _ _ _ _ _ _ H Hg).
-  - intros Hf. destruct (I_bound _ _ I Hf) as [H1 H2]. split; [|exact H2].
-    pose proof (nrun_upd cf (phase s) c (CLockWait k l (now s)) Hc) as E. rewrite Hp in E. cbn in E. lia.
-  - intros Hf Hw c0 k0 l0 p b H. updc c0 c H; [discriminate|apply (I_A _ _ I Hf Hw _ _ _ _ _ H)].
-  - intros Hf Hw c0 k0 l0 t1 H. updc c0 c H; [injection H as <- <- _; now left|].
-    apply (I_B _ _ I Hf Hw _ _ _ _ H).
+  - intros c0 k0 l0 t1 g1 H. updc c0 c H; [injection H as _ _ <- _; lia|apply (I_t0 _ _ I _ _ _ _ _ H)].
+  - intros c0 k0 l0 t1 g1 v e dl H Hg. updc c0 c H; [injection H as <- _ _ <-; congruence|].
+    apply (I_fresh _ _ I _ _ _ _ _ _ _ _ H Hg).
+  - intros c0 H. updc c0 c H; [discriminate|apply (I_byp _ _ I c0 H)].
+  - intros c0 k0 l0 H. updc c0 c H; [exact Hz|apply (I_nobyp _ _ I c0 k0 l0 H)].
+  - intros Hf c0 g1 H. updc c0 c H; [cbn in H; congruence|apply (I_gen _ _ I Hf c0 g1 H)].
+  - intros c0 g1 H. updc c0 c H; [cbn in H; injection H as <-; lia|apply (I_le _ _ I c0 g1 H)].
+  - intros Hf Hw c0 k0 l0 p b g1 H. updc c0 c H; [discriminate|apply (I_A _ _ I Hf Hw _ _ _ _ _ _ H)].
+  - intros Hf Hw c0 k0 l0 t1 g1 H. updc c0 c H; [injection H as <- <- _ <-; left; eauto|].
+    apply (I_B _ _ I Hf Hw _ _ _ _ _ H).
 Qed.
 
 (* ---------- leaf 9: a caller leaves its call (cancelled while waiting, KeyError, failure, re-read hit) ---------- *)
 Lemma LP_out cf s c k l o :
-  Inv cf s -> lockref (phase s c) = Some (k, l) -> op_tid o = c ->
+  Inv1 cf s -> lockref (phase s c) = Some (k, l) -> op_tid o = c ->
   ~ engaged (fst (Lock.step (locks s l) o)) c ->
   LP cf (upd (locks s) l (fst (Lock.step (locks s l) o))) (upd (phase s) c CIdle) (nlock s) (lkey s).
 Proof.
@@ -342,13 +420,12 @@ Proof.
   - congruence.
 Qed.
 
-Lemma inv_out cf s c k l o :
-  Inv cf s -> lockref (phase s c) = Some (k, l) -> op_tid o = c ->
+Lemma inv1_out cf s c k l o :
+  Inv1 cf s -> lockref (phase s c) = Some (k, l) -> op_tid o = c ->
   ~ engaged (fst (Lock.step (locks s l) o)) c ->
-  Inv cf (set_phase (set_lock s l (fst (Lock.step (locks s l) o))) c CIdle).
+  Inv1 cf (set_phase (set_lock s l (fst (Lock.step (locks s l) o))) c CIdle).
 Proof.
   intros I Hp Ho He.
-  assert (Hc : c < ncall cf) by (apply (L_ncall _ _ _ _ _ (I_lp _ _ I)); destruct (phase s c); cbn in *; congruence).
   constructor; sm.
   - eapply LP_out; eauto.
   - apply (I_nodup _ _ I).
@@ -357,187 +434,268 @@ Proof.
   - apply (I_place _ _ I).
   - apply (I_vdict _ _ I).
   - intros c0 k0 v b H. updc c0 c H; [discriminate|apply (I_vhit _ _ I _ _ _ _ H)].
-  - intros c0 k0 l0 t1 H. updc c0 c H; [discriminate|apply (I_t0 _ _ I _ _ _ _ H)].
-  - intros c0 k0 l0 t1 v e dl H. updc c0 c H; [discriminate|apply (I_fresh _ _ I _ _ _ _ _ _ _ H)].
-  - intros Hf. destruct (I_bound _ _ I Hf) as [H1 H2]. split; [|exact H2].
-    pose proof (nrun_upd cf (phase s) c CIdle Hc) as E. cbn in E. destruct (is_running (phase s c)); lia.
-  - intros Hf Hw c0 k0 l0 p b H. updc c0 c H; [discriminate|apply (I_A _ _ I Hf Hw _ _ _ _ _ H)].
-  - intros Hf Hw c0 k0 l0 t1 H. updc c0 c H; [discriminate|apply (I_B _ _ I Hf Hw _ _ _ _ H)].
+  - intros c0 k0 l0 t1 g1 H. updc c0 c H; [discriminate|apply (I_t0 _ _ I _ _ _ _ _ H)].
+  - intros c0 k0 l0 t1 g1 v e dl H. updc c0 c H; [discriminate|apply (I_fresh _ _ I _ _ _ _ _ _ _ _ H)].
+  - intros c0 H. updc c0 c H; [discriminate|apply (I_byp _ _ I c0 H)].
+  - intros c0 k0 l0 H. updc c0 c H; [discriminate|apply (I_nobyp _ _ I c0 k0 l0 H)].
+  - intros Hf c0 g1 H. updc c0 c H; [discriminate|apply (I_gen _ _ I Hf c0 g1 H)].
+  - intros c0 g1 H. updc c0 c H; [discriminate|apply (I_le _ _ I c0 g1 H)].
+  - intros Hf Hw c0 k0 l0 p b g1 H. updc c0 c H; [discriminate|apply (I_A _ _ I Hf Hw _ _ _ _ _ _ H)].
+  - intros Hf Hw c0 k0 l0 t1 g1 H. updc c0 c H; [discriminate|apply (I_B _ _ I Hf Hw _ _ _ _ _ H)].
 Qed.
 
 (* ---------- leaf 10: the miss bookkeeping (lines 199-203), after which the wrapped function runs ---------- *)
-Lemma LP_to_running cf s c k l t0 :
-  Inv cf s -> phase s c = CLockWait k l t0 -> In c (Lock.held (locks s l)) ->
-  LP cf (locks s) (upd (phase s) c (CInWrapped k l None false)) (nlock s) (lkey s).
+Lemma LP_to_running cf s c k l t0 g :
+  Inv1 cf s -> phase s c = CLockWait k l t0 g -> In c (Lock.held (locks s l)) ->
+  LP cf (locks s) (upd (phase s) c (CInWrapped k l None false g)) (nlock s) (lkey s).
 Proof.
   intros I Hp Hh. apply LP_phase; [apply (I_lp _ _ I)| | | | |].
   - intros l0 He. destruct (L_eng _ _ _ _ _ (I_lp _ _ I) l0 c He) as [k0 Hk]. rewrite Hp in Hk. cbn in *. eauto.
   - discriminate.
-  - intros k0 l0 p b [= _ <- _ _]. exact Hh.
+  - intros k0 l0 p b g0 [= _ <- _ _ _]. exact Hh.
   - cbn. intros k0 l0 [= <- <-]. apply (L_ref _ _ _ _ _ (I_lp _ _ I) c). now rewrite Hp.
   - intros _. apply (L_ncall _ _ _ _ _ (I_lp _ _ I)). congruence.
 Qed.
 
-Lemma own_place cf s c k l t0 l' :
-  Inv cf s -> phase s c = CLockWait k l t0 -> dget k (dict s) = Some (EPlace l') ->
+Lemma own_place cf s c k l t0 g l' b' :
+  Inv1 cf s -> phase s c = CLockWait k l t0 g -> dget k (dicts s g) = Some (EPlace l' b') ->
   f_inflight s = false -> f_waited s = false -> l' = l.
 Proof.
-  intros I Hp Hd Hf Hw. destruct (I_B _ _ I Hf Hw _ _ _ _ Hp) as [H|(v & e & H)]; congruence.
+  intros I Hp Hd Hf Hw. destruct (I_B _ _ I Hf Hw _ _ _ _ _ Hp) as [[b H]|(v & e & H)]; congruence.
 Qed.
 
-Lemma inv_miss_noevict cf s c k l t0 l' :
-  Inv cf s -> phase s c = CLockWait k l t0 -> In c (Lock.held (locks s l)) ->
-  dget k (dict s) = Some (EPlace l') -> full cf s = false ->
-  Inv cf (mk (dict s) (hits s) (S (misses s)) (currsize s + 1)%Z (locks s) (nlock s)
-             (upd (phase s) c (CInWrapped k l None false)) (now s) (clk s) (lkey s) (produced s)
-             (f_inflight s) (f_waited s)).
+(* the dict-local part is kept by the ghost mark *)
+Lemma DI_dmark s k d : DI s d -> DI s (dmark k d).
 Proof.
-  intros I Hp Hh Hd Hfull.
-  assert (Hc : c < ncall cf) by (apply (L_ncall _ _ _ _ _ (I_lp _ _ I)); congruence).
+  intros [H1 H2 H3 H4 H5]. constructor.
+  - now rewrite keys_dmark.
+  - now apply sorted_dmark.
+  - intros x Hx. apply in_dmark in Hx. destruct Hx as [Hx|(y & z & l & b & Hy & _ & _ & _ & ->)]; [auto|cbn; auto].
+  - intros x l b Hx He. apply in_dmark in Hx.
+    destruct Hx as [Hx|(y & z & l0 & b0 & Hy & Hz & Hk & Hse & ->)]; [eauto|].
+    cbn in *. injection He as <- _. rewrite <- Hk. eauto.
+  - intros x v e Hx He. apply in_dmark in Hx.
+    destruct Hx as [Hx|(y & z & l0 & b0 & Hy & Hz & Hk & Hse & ->)]; [eauto|discriminate].
+Qed.
+
+Lemma DI_tl s x r : DI s (x :: r) -> DI s r.
+Proof.
+  intros [H1 H2 H3 H4 H5]. constructor.
+  - now inversion H1.
+  - now inversion H2.
+  - intros y Hy. apply H3. now right.
+  - intros y l b Hy. apply H4. now right.
+  - intros y v e Hy. apply H5. now right.
+Qed.
+
+Lemma inv1_miss_noevict cf s c k l t0 g l' b' cs :
+  Inv1 cf s -> phase s c = CLockWait k l t0 g -> In c (Lock.held (locks s l)) ->
+  dget k (dicts s g) = Some (EPlace l' b') ->
+  Inv1 cf (mk (upd (dicts s) g (dmark k (dicts s g))) (cur s) (has_dict s) (hits s) (S (misses s)) cs (locks s)
+              (nlock s) (upd (phase s) c (CInWrapped k l None false g)) (now s) (clk s) (lkey s) (produced s)
+              (fl s)).
+Proof.
+  intros I Hp Hh Hd.
+  pose proof (DI_dmark s k _ (DI_of cf s g I)) as HD.
   constructor; sm.
   - eapply LP_to_running; eauto.
-  - apply (I_nodup _ _ I).
-  - apply (I_sorted _ _ I).
-  - apply (I_stamp _ _ I).
-  - apply (I_place _ _ I).
-  - apply (I_vdict _ _ I).
+  - intros g0. updg g0 g; [apply (D_nodup _ _ HD)|apply (I_nodup _ _ I)].
+  - intros g0. updg g0 g; [apply (D_sorted _ _ HD)|apply (I_sorted _ _ I)].
+  - intros g0 x Hx. updg g0 g; [apply (D_stamp _ _ HD _ Hx)|apply (I_stamp _ _ I _ _ Hx)].
+  - intros g0 x l0 b Hx. updg g0 g; [apply (D_place _ _ HD _ _ _ Hx)|apply (I_place _ _ I _ _ _ _ Hx)].
+  - intros g0 x v e Hx. updg g0 g; [apply (D_vdict _ _ HD _ _ _ Hx)|apply (I_vdict _ _ I _ _ _ _ Hx)].
   - intros c0 k0 v b H. updc c0 c H; [discriminate|apply (I_vhit _ _ I _ _ _ _ H)].
-  - intros c0 k0 l0 t1 H. updc c0 c H; [discriminate|apply (I_t0 _ _ I _ _ _ _ H)].
-  - intros c0 k0 l0 t1 v e dl H. updc c0 c H; [discriminate|apply (I_fresh _ _ I _ _ _ _ _ _ _ H)].
-  - intros Hf. destruct (I_bound _ _ I Hf) as [H1 H2].
-    pose proof (nrun_upd cf (phase s) c (CInWrapped k l None false) Hc) as E. rewrite Hp in E. cbn in E.
-    split; [lia|]. intros m Hm. unfold full in Hfull. rewrite Hm in Hfull. lia.
-  - intros Hf Hw c0 k0 l0 p b H. updc c0 c H.
-    + injection H as <- <- _ _. rewrite Hd. f_equal. f_equal. eapply own_place; eauto.
-    + apply (I_A _ _ I Hf Hw _ _ _ _ _ H).
-  - intros Hf Hw c0 k0 l0 t1 H. updc c0 c H; [discriminate|apply (I_B _ _ I Hf Hw _ _ _ _ H)].
+  - intros c0 k0 l0 t1 g1 H. updc c0 c H; [discriminate|apply (I_t0 _ _ I _ _ _ _ _ H)].
+  - intros c0 k0 l0 t1 g1 v e dl H Hg. updc c0 c H; [discriminate|].
+    apply (I_fresh _ _ I _ _ _ _ _ v e dl H); [|assumption].
+    updg g1 g; [|exact Hg]. rewrite dget_dmark in Hg. destruct (Nat.eqb_spec k0 k) as [->|N]; [|exact Hg].
+    rewrite Hd in Hg. discriminate.
+  - intros c0 H. updc c0 c H; [discriminate|apply (I_byp _ _ I c0 H)].
+  - intros c0 k0 l0 H. updc c0 c H; [|apply (I_nobyp _ _ I c0 k0 l0 H)].
+    apply (I_nobyp _ _ I c k l). now rewrite Hp.
+  - intros Hf c0 g1 H. updc c0 c H; [|apply (I_gen _ _ I Hf c0 g1 H)].
+    apply (I_gen _ _ I Hf c). rewrite Hp. exact H.
+  - intros c0 g1 H. updc c0 c H; [|apply (I_le _ _ I c0 g1 H)].
+    apply (I_le _ _ I c). rewrite Hp. exact H.
+  - intros Hf Hw c0 k0 l0 p b g1 H. updc c0 c H.
+    + injection H as <- <- _ _ <-. rewrite upd_same, dget_dmark, Nat.eqb_refl, Hd. f_equal. f_equal.
+      eapply own_place; eauto.
+    + pose proof (I_A _ _ I Hf Hw _ _ _ _ _ _ H) as HA. updg g1 g; [|exact HA].
+      rewrite dget_dmark. destruct (Nat.eqb_spec k0 k) as [->|N]; [|exact HA]. rewrite HA. reflexivity.
+  - intros Hf Hw c0 k0 l0 t1 g1 H. updc c0 c H; [discriminate|].
+    pose proof (I_B _ _ I Hf Hw _ _ _ _ _ H) as HB. updg g1 g; [|exact HB].
+    rewrite dget_dmark. destruct (Nat.eqb_spec k0 k) as [->|N]; [|exact HB].
+    destruct HB as [[b H']|(v & e & H')]; rewrite H'; eauto.
 Qed.
 
-Lemma inv_miss_evict cf s c k l t0 l' x0 r :
-  Inv cf s -> phase s c = CLockWait k l t0 -> In c (Lock.held (locks s l)) ->
-  dget k (dict s) = Some (EPlace l') -> dict s = x0 :: r ->
-  Inv cf (mk r (hits s) (S (misses s)) (currsize s) (locks s) (nlock s)
-             (upd (phase s) c (CInWrapped k l None false)) (now s) (clk s) (lkey s) (produced s)
-             (orb (f_inflight s) (is_place (se x0)))
-             (orb (f_waited s) (andb (negb (is_place (se x0))) (waited cf s (sk x0))))).
+(* what the flags say about the evicted head when they stay false *)
+Lemma evict_flags_false cf s g x0 :
+  fl_inflight (evict_flags cf s g x0) = false -> fl_waited (evict_flags cf s g x0) = false ->
+  f_inflight s = false /\ f_waited s = false /\
+  match se x0 with
+  | EPlace l b => referenced cf s l = false
+  | EVal _ _ => waited cf s (sk x0) g = false
+  end.
+Proof.
+  unfold evict_flags, f_inflight, f_waited. destruct (se x0) as [l b|v e].
+  - destruct (referenced cf s l); cbn; intros H1 H2.
+    + apply orb_false_elim in H1. destruct H1. discriminate.
+    + auto.
+  - cbn. intros H1 H2. apply orb_false_elim in H2. tauto.
+Qed.
+
+Lemma inv1_miss_evict cf s c k l t0 g l' b' x0 r :
+  Inv1 cf s -> phase s c = CLockWait k l t0 g -> In c (Lock.held (locks s l)) ->
+  dget k (dicts s g) = Some (EPlace l' b') -> dicts s g = x0 :: r ->
+  Inv1 cf (mk (upd (dicts s) g (dmark k r)) (cur s) (has_dict s) (hits s) (S (misses s)) (currsize s) (locks s)
+              (nlock s) (upd (phase s) c (CInWrapped k l None false g)) (now s) (clk s) (lkey s) (produced s)
+              (evict_flags cf s g x0)).
 Proof.
   intros I Hp Hh Hd Hdict.
   assert (Hc : c < ncall cf) by (apply (L_ncall _ _ _ _ _ (I_lp _ _ I)); congruence).
-  pose proof (I_nodup _ _ I) as Hnd. rewrite Hdict in Hnd, Hd.
-  assert (Hsub : forall y, In y r -> In y (dict s)) by (intros y Hy; rewrite Hdict; now right).
-  assert (Hflags : orb (f_inflight s) (is_place (se x0)) = false ->
-                   orb (f_waited s) (andb (negb (is_place (se x0))) (waited cf s (sk x0))) = false ->
-                   f_inflight s = false /\ f_waited s = false /\ is_place (se x0) = false /\
-                   waited cf s (sk x0) = false).
-  { intros H1 H2. apply orb_false_elim in H1. destruct H1 as [H1 H1']. apply orb_false_elim in H2.
-    destruct H2 as [H2 H2']. rewrite H1' in H2'. cbn in H2'. auto. }
+  pose proof (DI_of cf s g I) as HD0. rewrite Hdict in HD0, Hd.
+  pose proof (DI_dmark s k _ (DI_tl s x0 r HD0)) as HD.
+  pose proof (D_nodup _ _ HD0) as Hnd.
+  assert (Hph : fl_phantom (evict_flags cf s g x0) = fl_phantom (fl s)).
+  { unfold evict_flags. destruct (se x0); [destruct (referenced cf s l0)|]; reflexivity. }
   constructor; sm.
   - eapply LP_to_running; eauto.
-  - now inversion Hnd.
-  - pose proof (I_sorted _ _ I) as H. rewrite Hdict in H. now inversion H.
-  - intros y Hy. apply (I_stamp _ _ I), Hsub, Hy.
-  - intros y l0 Hy. apply (I_place _ _ I), Hsub, Hy.
-  - intros y v e Hy. apply (I_vdict _ _ I), Hsub, Hy.
+  - intros g0. updg g0 g; [apply (D_nodup _ _ HD)|apply (I_nodup _ _ I)].
+  - intros g0. updg g0 g; [apply (D_sorted _ _ HD)|apply (I_sorted _ _ I)].
+  - intros g0 x Hx. updg g0 g; [apply (D_stamp _ _ HD _ Hx)|apply (I_stamp _ _ I _ _ Hx)].
+  - intros g0 x l0 b Hx. updg g0 g; [apply (D_place _ _ HD _ _ _ Hx)|apply (I_place _ _ I _ _ _ _ Hx)].
+  - intros g0 x v e Hx. updg g0 g; [apply (D_vdict _ _ HD _ _ _ Hx)|apply (I_vdict _ _ I _ _ _ _ Hx)].
   - intros c0 k0 v b H. updc c0 c H; [discriminate|apply (I_vhit _ _ I _ _ _ _ H)].
-  - intros c0 k0 l0 t1 H. updc c0 c H; [discriminate|apply (I_t0 _ _ I _ _ _ _ H)].
-  - intros c0 k0 l0 t1 v e dl H Hg Ht. updc c0 c H; [discriminate|].
+  - intros c0 k0 l0 t1 g1 H. updc c0 c H; [discriminate|apply (I_t0 _ _ I _ _ _ _ _ H)].
+  - intros c0 k0 l0 t1 g1 v e dl H Hg Ht. updc c0 c H; [discriminate|].
+    updg g1 g; [|apply (I_fresh _ _ I _ _ _ _ _ v e dl H Hg Ht)].
+    rewrite dget_dmark in Hg.
+    assert (Hg' : dget k0 r = Some (EVal v (Some e))).
+    { destruct (Nat.eqb_spec k0 k) as [->|N]; [|exact Hg]. destruct (dget k r) as [[l1 b1|v1 e1]|]; congruence. }
     destruct (dget_tl_cases k0 x0 r Hnd) as [E|E]; [|congruence].
-    apply (I_fresh _ _ I _ _ _ _ v e dl H); [rewrite Hdict, <- E; exact Hg|exact Ht].
-  - intros Hf. apply orb_false_elim in Hf. destruct Hf as [Hf Hpl].
-    destruct (I_bound _ _ I Hf) as [H1 H2]. split; [|exact H2].
-    pose proof (nrun_upd cf (phase s) c (CInWrapped k l None false) Hc) as E. rewrite Hp in E. cbn in E.
-    rewrite Hdict, nval_cons in H1. unfold is_val in H1. rewrite Hpl in H1. cbn in H1. lia.
-  - intros Hf Hw. destruct (Hflags Hf Hw) as (Hf0 & Hw0 & Hpl & Hwt).
-    intros c0 k0 l0 p b H. updc c0 c H.
-    + injection H as <- <- _ _.
+    apply (I_fresh _ _ I _ _ _ _ _ v e dl H); [rewrite Hdict, <- E; exact Hg'|exact Ht].
+  - intros c0 H. updc c0 c H; [discriminate|apply (I_byp _ _ I c0 H)].
+  - intros c0 k0 l0 H. updc c0 c H; [|apply (I_nobyp _ _ I c0 k0 l0 H)].
+    apply (I_nobyp _ _ I c k l). now rewrite Hp.
+  - rewrite Hph. intros Hf c0 g1 H. updc c0 c H; [|apply (I_gen _ _ I Hf c0 g1 H)].
+    apply (I_gen _ _ I Hf c). rewrite Hp. exact H.
+  - intros c0 g1 H. updc c0 c H; [|apply (I_le _ _ I c0 g1 H)].
+    apply (I_le _ _ I c). rewrite Hp. exact H.
+  - intros Hf Hw. destruct (evict_flags_false cf s g x0 Hf Hw) as (Hf0 & Hw0 & Hx0).
+    intros c0 k0 l0 p b g1 H. updc c0 c H.
+    + injection H as <- <- _ _ <-. rewrite upd_same.
       assert (Hne : sk x0 <> k).
-      { intros E. rewrite dget_cons, E, Nat.eqb_refl in Hd. injection Hd as Hd. rewrite Hd in Hpl. discriminate. }
-      rewrite (dget_tl k x0 r Hne), Hd. f_equal. f_equal.
+      { intros E. rewrite dget_cons, E, Nat.eqb_refl in Hd. injection Hd as Hd. rewrite Hd in Hx0.
+        eapply referenced_false; [exact Hx0|exact Hc|]. rewrite Hp. cbn. f_equal. f_equal.
+        symmetry. eapply own_place; eauto. rewrite Hdict, dget_cons, E, Nat.eqb_refl, Hd. reflexivity. }
+      rewrite dget_dmark, Nat.eqb_refl, (dget_tl k x0 r Hne), Hd. f_equal. f_equal.
       eapply own_place; eauto. rewrite Hdict. exact Hd.
-    + pose proof (I_A _ _ I Hf0 Hw0 _ _ _ _ _ H) as HA. rewrite Hdict in HA.
+    + pose proof (I_A _ _ I Hf0 Hw0 _ _ _ _ _ _ H) as HA. updg g1 g; [|exact HA]. rewrite Hdict in HA.
       assert (Hne : sk x0 <> k0).
-      { intros E. rewrite dget_cons, E, Nat.eqb_refl in HA. injection HA as HA. rewrite HA in Hpl. discriminate. }
-      now rewrite (dget_tl k0 x0 r Hne).
-  - intros Hf Hw. destruct (Hflags Hf Hw) as (Hf0 & Hw0 & Hpl & Hwt).
-    intros c0 k0 l0 t1 H. updc c0 c H; [discriminate|].
+      { intros E. rewrite dget_cons, E, Nat.eqb_refl in HA. injection HA as HA. rewrite HA in Hx0.
+        eapply referenced_false; [exact Hx0| |].
+        - apply (L_ncall _ _ _ _ _ (I_lp _ _ I)). congruence.
+        - rewrite H. reflexivity. }
+      rewrite dget_dmark, (dget_tl k0 x0 r Hne), HA. destruct (Nat.eqb k0 k); reflexivity.
+  - intros Hf Hw. destruct (evict_flags_false cf s g x0 Hf Hw) as (Hf0 & Hw0 & Hx0).
+    intros c0 k0 l0 t1 g1 H. updc c0 c H; [discriminate|].
+    pose proof (I_B _ _ I Hf0 Hw0 _ _ _ _ _ H) as HB. updg g1 g; [|exact HB]. rewrite Hdict in HB.
+    assert (Hc0 : c0 < ncall cf) by (apply (L_ncall _ _ _ _ _ (I_lp _ _ I)); congruence).
     assert (Hne : sk x0 <> k0).
-    { intros E. subst k0. eapply waited_false; [exact Hwt| |exact H].
-      apply (L_ncall _ _ _ _ _ (I_lp _ _ I)). congruence. }
-    rewrite (dget_tl k0 x0 r Hne), <- Hdict. apply (I_B _ _ I Hf0 Hw0 _ _ _ _ H).
+    { intros E. rewrite dget_cons, E, Nat.eqb_refl in HB. destruct HB as [[b HB]|(v & e & HB)]; injection HB as HB;
+        rewrite HB in Hx0.
+      - eapply referenced_false; [exact Hx0|exact Hc0|]. rewrite H. reflexivity.
+      - subst k0. eapply waited_false; [exact Hx0|exact Hc0|exact H]. }
+    rewrite dget_dmark, (dget_tl k0 x0 r Hne).
+    destruct HB as [[b HB]|(v & e & HB)]; rewrite HB; destruct (Nat.eqb k0 k); eauto.
 Qed.
 
 (* ---------- leaf 11: the wrapped function returned: store, release, return (lines 205-209, 216) ---------- *)
-Lemma inv_store_out cf s c k l v :
-  Inv cf s -> phase s c = CInWrapped k l (Some (WRet v)) false ->
-  Inv cf (mk (dstore k (EVal v (new_exp cf (now s))) (clk s) (dict s)) (hits s) (misses s) (currsize s)
-             (upd (locks s) l (fst (Lock.step (locks s l) (Lock.Release c)))) (nlock s)
-             (upd (phase s) c CIdle) (now s) (S (clk s)) (lkey s) ((k, v) :: produced s)
-             (f_inflight s) (f_waited s)).
+Lemma inv1_store_out cf s c k l v g :
+  Inv1 cf s -> phase s c = CInWrapped k l (Some (WRet v)) false g ->
+  Inv1 cf (mk (upd (dicts s) g (dstore k (EVal v (new_exp cf (now s))) (clk s) (dicts s g))) (cur s) (has_dict s)
+              (hits s) (misses s) (currsize s)
+              (upd (locks s) l (fst (Lock.step (locks s l) (Lock.Release c)))) (nlock s)
+              (upd (phase s) c CIdle) (now s) (S (clk s)) (lkey s) ((k, v) :: produced s) (fl s)).
 Proof.
   intros I Hp.
-  assert (Hc : c < ncall cf) by (apply (L_ncall _ _ _ _ _ (I_lp _ _ I)); congruence).
-  pose proof (L_run _ _ _ _ _ (I_lp _ _ I) _ _ _ _ _ Hp) as Hh.
+  pose proof (L_run _ _ _ _ _ (I_lp _ _ I) _ _ _ _ _ _ Hp) as Hh.
   constructor; sm.
   - apply (LP_out cf s c k l (Lock.Release c) I); [now rewrite Hp|reflexivity|].
     apply release_holder; [apply (L_inv _ _ _ _ _ (I_lp _ _ I))|exact Hh].
-  - apply nodup_dstore, (I_nodup _ _ I).
-  - apply sorted_dstore; [apply (I_sorted _ _ I)|apply (I_stamp _ _ I)].
-  - intros y Hy. apply in_dstore in Hy. destruct Hy as [Hy|(_ & _ & [E|(z & Hz & E)])].
-    + pose proof (I_stamp _ _ I y Hy). lia.
+  - intros g0. updg g0 g; [|apply (I_nodup _ _ I)]. apply nodup_dstore, (I_nodup _ _ I).
+  - intros g0. updg g0 g; [|apply (I_sorted _ _ I)].
+    apply sorted_dstore; [apply (I_sorted _ _ I)|apply (I_stamp _ _ I g)].
+  - intros g0 y Hy. updg g0 g; [|pose proof (I_stamp _ _ I _ _ Hy); lia].
+    apply in_dstore in Hy. destruct Hy as [Hy|(_ & _ & [E|(z & Hz & E)])].
+    + pose proof (I_stamp _ _ I _ y Hy). lia.
     + lia.
-    + pose proof (I_stamp _ _ I z Hz). lia.
-  - intros y l0 Hy He. apply in_dstore in Hy. destruct Hy as [Hy|(_ & E & _)]; [|congruence].
-    apply (I_place _ _ I y l0 Hy He).
-  - intros y v0 e Hy He. apply in_dstore in Hy. destruct Hy as [Hy|(E1 & E2 & _)].
-    + right. apply (I_vdict _ _ I y v0 e Hy He).
+    + pose proof (I_stamp _ _ I _ z Hz). lia.
+  - intros g0 y l0 b Hy He. updg g0 g; [|apply (I_place _ _ I _ y l0 b Hy He)].
+    apply in_dstore in Hy. destruct Hy as [Hy|(_ & E & _)]; [|congruence].
+    apply (I_place _ _ I _ y l0 b Hy He).
+  - intros g0 y v0 e Hy He. updg g0 g; [|right; apply (I_vdict _ _ I _ y v0 e Hy He)].
+    apply in_dstore in Hy. destruct Hy as [Hy|(E1 & E2 & _)].
+    + right. apply (I_vdict _ _ I _ y v0 e Hy He).
     + left. rewrite E2 in He. injection He as <- _. now rewrite E1.
   - intros c0 k0 v0 b H. updc c0 c H; [discriminate|]. right. apply (I_vhit _ _ I _ _ _ _ H).
-  - intros c0 k0 l0 t1 H. updc c0 c H; [discriminate|apply (I_t0 _ _ I _ _ _ _ H)].
-  - intros c0 k0 l0 t1 v0 e dl H Hg Ht. updc c0 c H; [discriminate|].
+  - intros c0 k0 l0 t1 g1 H. updc c0 c H; [discriminate|apply (I_t0 _ _ I _ _ _ _ _ H)].
+  - intros c0 k0 l0 t1 g1 v0 e dl H Hg Ht. updc c0 c H; [discriminate|].
+    updg g1 g; [|apply (I_fresh _ _ I _ _ _ _ _ _ _ _ H Hg Ht)].
     rewrite dget_dstore in Hg. destruct (Nat.eqb_spec k0 k) as [->|N].
     + injection Hg as _ Hg. unfold new_exp in Hg. rewrite Ht in Hg. injection Hg as <-.
-      pose proof (I_t0 _ _ I _ _ _ _ H). lia.
-    + apply (I_fresh _ _ I _ _ _ _ _ _ _ H Hg Ht).
-  - intros Hf. destruct (I_bound _ _ I Hf) as [H1 H2]. split; [|exact H2].
-    pose proof (nrun_upd cf (phase s) c CIdle Hc) as E. rewrite Hp in E. cbn in E.
-    pose proof (nval_dstore k (EVal v (new_exp cf (now s))) (clk s) (dict s)). lia.
-  - intros Hf Hw c0 k0 l0 p b H. updc c0 c H; [discriminate|].
-    pose proof (I_A _ _ I Hf Hw _ _ _ _ _ H) as HA. rewrite dget_dstore.
+      pose proof (I_t0 _ _ I _ _ _ _ _ H). lia.
+    + apply (I_fresh _ _ I _ _ _ _ _ _ _ _ H Hg Ht).
+  - intros c0 H. updc c0 c H; [discriminate|apply (I_byp _ _ I c0 H)].
+  - intros c0 k0 l0 H. updc c0 c H; [discriminate|apply (I_nobyp _ _ I c0 k0 l0 H)].
+  - intros Hf c0 g1 H. updc c0 c H; [discriminate|apply (I_gen _ _ I Hf c0 g1 H)].
+  - intros c0 g1 H. updc c0 c H; [discriminate|apply (I_le _ _ I c0 g1 H)].
+  - intros Hf Hw c0 k0 l0 p b g1 H. updc c0 c H; [discriminate|].
+    pose proof (I_A _ _ I Hf Hw _ _ _ _ _ _ H) as HA. updg g1 g; [|exact HA]. rewrite dget_dstore.
     destruct (Nat.eqb_spec k0 k) as [->|N]; [|exact HA]. exfalso.
-    pose proof (I_A _ _ I Hf Hw _ _ _ _ _ Hp) as HA'. assert (l0 = l) by congruence. subst l0.
-    pose proof (L_run _ _ _ _ _ (I_lp _ _ I) _ _ _ _ _ H) as Hh0.
+    pose proof (I_A _ _ I Hf Hw _ _ _ _ _ _ Hp) as HA'. assert (l0 = l) by congruence. subst l0.
+    pose proof (L_run _ _ _ _ _ (I_lp _ _ I) _ _ _ _ _ _ H) as Hh0.
     pose proof (held_unique _ _ _ (L_inv _ _ _ _ _ (I_lp _ _ I) l) Hh0 Hh). contradiction.
-  - intros Hf Hw c0 k0 l0 t1 H. updc c0 c H; [discriminate|].
-    rewrite dget_dstore. destruct (Nat.eqb_spec k0 k) as [->|N]; [right; eauto|].
-    apply (I_B _ _ I Hf Hw _ _ _ _ H).
+  - intros Hf Hw c0 k0 l0 t1 g1 H. updc c0 c H; [discriminate|].
+    pose proof (I_B _ _ I Hf Hw _ _ _ _ _ H) as HB. updg g1 g; [|exact HB].
+    rewrite dget_dstore. destruct (Nat.eqb_spec k0 k) as [->|N]; [right; eauto|exact HB].
 Qed.
 
-(* ---------- leaf 12: cache_clear() with no call in progress ---------- *)
-Lemma all_idle_phase cf s : Inv cf s -> all_idle cf s = true -> forall c, phase s c = CIdle.
+(* ---------- leaf 12: cache_clear(), a new event loop ---------- *)
+Lemma all_idle_phase cf s : Inv1 cf s -> all_idle cf s = true -> forall c, phase s c = CIdle.
 Proof.
   intros I H c. unfold all_idle in H. rewrite forallb_forall in H.
-  destruct (phase s c) eqn:E; [reflexivity| | | |];
+  destruct (phase s c) eqn:E; [reflexivity| | | | |];
     (assert (Hc : c < ncall cf) by (apply (L_ncall _ _ _ _ _ (I_lp _ _ I)); congruence);
      assert (Hin : In c (seq 0 (ncall cf))) by (apply in_seq; lia);
      specialize (H c Hin); rewrite E in H; discriminate).
 Qed.
 
-Lemma inv_clear cf s :
-  Inv cf s -> all_idle cf s = true ->
-  Inv cf (mk [] 0 0 0%Z (locks s) (nlock s) (phase s) (now s) (clk s) (lkey s) (produced s)
-             (f_inflight s) (f_waited s)).
+(* a fresh, empty current dict; the flag b must be set unless nobody is inside a call *)
+Lemma inv1_newgen cf s hd h m cs b :
+  Inv1 cf s -> (b = false -> all_idle cf s = true) ->
+  Inv1 cf (mk (upd (dicts s) (S (cur s)) []) (S (cur s)) hd h m cs (locks s) (nlock s) (phase s) (now s) (clk s)
+              (lkey s) (produced s) (fl_or_phantom (fl s) b)).
 Proof.
-  intros I H. pose proof (all_idle_phase cf s I H) as Hid. constructor; sm.
+  intros I Hb. constructor; sm.
   - apply (I_lp _ _ I).
-  - constructor.
-  - constructor.
-  - intros x [].
-  - intros x l [].
-  - intros x v e [].
+  - intros g. updg g (S (cur s)); [constructor|apply (I_nodup _ _ I)].
+  - intros g. updg g (S (cur s)); [constructor|apply (I_sorted _ _ I)].
+  - intros g x Hx. updg g (S (cur s)); [contradiction|apply (I_stamp _ _ I _ _ Hx)].
+  - intros g x l b0 Hx. updg g (S (cur s)); [contradiction|apply (I_place _ _ I _ _ _ _ Hx)].
+  - intros g x v e Hx. updg g (S (cur s)); [contradiction|apply (I_vdict _ _ I _ _ _ _ Hx)].
   - apply (I_vhit _ _ I).
   - apply (I_t0 _ _ I).
-  - intros c k l t0 v e dl Hp. rewrite Hid in Hp. discriminate.
-  - intros _. rewrite nrun_idle by (intros; apply Hid). cbn. split; [lia|]. intros m _. lia.
-  - intros _ _ c k l p b Hp. rewrite Hid in Hp. discriminate.
-  - intros _ _ c k l t0 Hp. rewrite Hid in Hp. discriminate.
+  - intros c k l t0 g v e dl Hp Hd. updg g (S (cur s)); [discriminate|apply (I_fresh _ _ I _ _ _ _ _ _ _ _ Hp Hd)].
+  - apply (I_byp _ _ I).
+  - apply (I_nobyp _ _ I).
+  - intros Hf c g Hp. apply orb_false_elim in Hf. destruct Hf as [_ Hf].
+    rewrite (all_idle_phase cf s I (Hb Hf) c) in Hp. discriminate.
+  - intros c g Hp. pose proof (I_le _ _ I c g Hp). lia.
+  - intros Hf Hw c k l p b0 g Hp. pose proof (I_A _ _ I Hf Hw _ _ _ _ _ _ Hp) as HA.
+    assert (g <= cur s) by (apply (I_le _ _ I c); now rewrite Hp).
+    rewrite upd_other by lia. exact HA.
+  - intros Hf Hw c k l t0 g Hp. pose proof (I_B _ _ I Hf Hw _ _ _ _ _ Hp) as HB.
+    assert (g <= cur s) by (apply (I_le _ _ I c); now rewrite Hp).
+    rewrite upd_other by lia. exact HB.
 Qed.
